@@ -22,6 +22,8 @@ for d in sorted(glob.glob(os.path.join(ROOT, 'seeded', '*', 'meta.json')), key=l
         res = 'undecided: ' + u[:110]
     elif rc == 0:
         res = 'MISSED by %s' % prop + (' (detected by %s)' % ', '.join(others_v) if others_v else '')
+    elif '_stale' in det:
+        res = 'not run (patch does not apply to HEAD any more)'
     else:
         res = 'not run'
     change = (meta.get('change') or meta.get('description') or meta.get('title') or '').replace('|', '/')
